@@ -78,11 +78,38 @@ def mutate_lines(rng, data):
     return "\n".join(ls).encode()
 
 
+def cross_section(rng):
+    """every section's record vocabulary delivered to ONE section's parser: the lines of all eight generators, plain and with
+    their own section's name in front of the key (legacy spellings like `EditorBookmarks`), under a single header — and the
+    header once more later, so that the section is entered twice."""
+    from . import osugen as g
+    mode = rng.randint(0, 3)
+    secs = [g.gen_general(rng, mode, 0), g.gen_editor(rng, 0), g.gen_metadata(rng, 0), g.gen_difficulty(rng, 0), g.gen_events(rng, 0, 20000),
+            g.gen_timing(rng, mode, 0, 20000, True), g.gen_colours(rng, 0), g.gen_objects(rng, mode, 0, True)]
+    target = rng.choice(secs)[0]
+    body = []
+    for s in secs:
+        name = s[0].strip("[]")
+        for l in s[1:]:
+            if not l or l.startswith("//"):
+                continue
+            body.append(l)
+            if ":" in l.split(",")[0] and rng.random() < 0.7:
+                body.append(rng.choice([name, name.rstrip("s")]) + l)
+    rng.shuffle(body)
+    cut = rng.randint(0, len(body))
+    other = rng.choice(secs)[0]
+    lines = [f"osu file format v{rng.choice([14, 9, 5, 3])}", "", target] + body[:cut] + ["", other, rng.choice(body) if body else "", "", target] + body[cut:]
+    return "\n".join(lines).encode()
+
+
 def file_case(rng, tier):
     """(tag, bytes)"""
     k = rng.random()
     if k < 0.03:
         return "reader-corner", rng.choice(READER_CORNERS)
+    if k < 0.07:
+        return "cross-section", cross_section(rng)
     if k < 0.1:
         return "noise", noise(rng)
     if k < 0.55:
